@@ -17,6 +17,8 @@ CONSTANTS
   RecordMode = "component"
   PoolSet = {FALSE, TRUE}
   AssembleMode = "index"
+  LateSet = {FALSE}
+  LookupMode = "live"
   MaxFaults = 1
 INVARIANT RoundTrip
 INVARIANT ErrorsPersisted
